@@ -565,7 +565,10 @@ pub fn run(prop: &str, tier: &str) -> i32 {
 
 pub fn run_into(report: &mut Report, prop: &str, tier: &str, share: f64) {
     let plans = plans(prop, tier);
-    let cap = wall_cap(tier, plans.len()).mul_f64(share);
+    // one budget for the whole check: every plan may use what is left of it (at least a fair share)
+    let total = wall_cap(tier, 1).mul_f64(share);
+    let fair = wall_cap(tier, plans.len()).mul_f64(share);
+    let t0 = std::time::Instant::now();
     let mut tot_states = 0u64;
     let mut tot_trans = 0u64;
     let mut tot_extra = 0u64;
@@ -578,7 +581,7 @@ pub fn run_into(report: &mut Report, prop: &str, tier: &str, share: f64) {
         let subject = LevelSubject { cfg: plan.cfg };
         let cfg = BfsConfig {
             max_depth: plan.depth,
-            wall_cap: cap,
+            wall_cap: total.saturating_sub(t0.elapsed()).max(fair.mul_f64(0.5)),
             state_cap: 40_000_000,
             threads: threads(),
         };
